@@ -52,10 +52,10 @@ theorem lookup_common {β γ δ : Type} (f : Fam) (m : List (Fam × β)) (m2 : L
 theorem lookup_fams (l r : List Cap) (f : Fam) :
     lookup f (negotiate l r).fams =
       both (lookup f (parseCaps r)) (lookup f (parseCaps l))
-        (fun (lc rc : Raw) => ({ rx := bit0 lc.addpath && bit1 rc.addpath, tx := bit1 lc.addpath && bit0 rc.addpath } : FamState)) := by
+        (fun (lc rc : Raw) => ({ rx := bit0 lc.addpath && bit1 rc.addpath, tx := bit1 lc.addpath && bit0 rc.addpath, enh := lc.extNh && rc.extNh } : FamState)) := by
   simp only [negotiate]
   exact lookup_common f (parseCaps r) (parseCaps l)
-    (fun _ (lc rc : Raw) => ({ rx := bit0 lc.addpath && bit1 rc.addpath, tx := bit1 lc.addpath && bit0 rc.addpath } : FamState))
+    (fun _ (lc rc : Raw) => ({ rx := bit0 lc.addpath && bit1 rc.addpath, tx := bit1 lc.addpath && bit0 rc.addpath, enh := lc.extNh && rc.extNh } : FamState))
 
 /-- the receiver's add-path-rx for `f` is the sender's add-path-tx -/
 theorem codecPair (l r : List Cap) (f : Fam) (h : (rxOf (negotiate r l) f).isSome = true) :
